@@ -127,7 +127,7 @@ class ExtCommunity(Attribute):
                 ext_community.append('%s:%s:%s' % (bgp_cons.BGP_EXT_COM_STR_DICT[comm_code], asn, int(rate)))
 
             elif comm_code == bgp_cons.BGP_EXT_TRA_ACTION:
-                bit_value = parse_bit(ord(value_tmp[-1]))
+                bit_value = parse_bit(ord(value_tmp[-1:]))
                 ext_community.append(
                     '%s:S:%s,T:%s' % (bgp_cons.BGP_EXT_COM_STR_DICT[comm_code], bit_value['6'], bit_value['7']))
             elif comm_code == bgp_cons.BGP_EXT_REDIRECT_VRF:
